@@ -79,7 +79,10 @@ CLAIMED = {
         "times their type's range; serialize must equal the Specification encoder O-SERDES (stream as one integer), the "
         "length must be in the bit length set, the round trip must return the cast-mode image, delimiter-header forms "
         "agree. Byte/utf8 payloads are symbolic bytes/str of 0..4 units. Defaults and relaxed forms are checked "
-        "choice-exhaustively; floats on a fixed list (C boundary).",
+        "choice-exhaustively; floats on a fixed list (C boundary). E3: the bit writer's source is translated to SMT and "
+        "write_bits / align_to are shown to set exactly bits [o, o+n) := v mod 2**n for every v < 2**72 and every buffer "
+        "content, per offset 0..8 (23 thorough) x width (20 widths; 1..64 thorough) x buffer length. Twins (equal-comparing, "
+        "structurally different composites) are serialised in one process.",
         note="The bit writer's slow path tests one bit at a time, so a symbolic leaf costs 2**bits paths; leaves wider "
         "than 16 bits stay concrete in the quick tier. O-SERDES was validated against the real codec on 8400 random "
         "cases during development. Shapes outside the catalogue are outside the claim.",
@@ -91,7 +94,10 @@ CLAIMED = {
         "byte-aligned catalogue shapes, 0..1 for shapes with sub-byte fields / nested delimited members): same value or "
         "same rejection as the Specification decoder O-SERDES, only SerDesError/ValueError escape, accepted objects are "
         "fixed points, zero extension and symbolic trailing junk change nothing. Every prefix x single-bit corruption of "
-        "valid representations is covered choice-exhaustively.",
+        "valid representations is covered choice-exhaustively (also for byte/utf8 arrays inside delimited objects followed by "
+        "non-zero data). E3: the bit reader's source is translated to SMT and read_bits is shown to return data bits "
+        "[o, o+min(n, available)) with zeros beyond data and limit, for every buffer content, per offset x width x data "
+        "length x sub-reader limit; bounded_subreader / remaining_bits bookkeeping. Twins decoded in one process.",
         note="The reader's slow path ORs single bits (CrossHair realises `|`), which costs 2**bits paths; hence the small "
         "length bounds for sub-byte shapes. Float fields are excluded (struct.unpack is a C boundary).",
         technique="symbolic execution (CrossHair/z3) of real decoder on symbolic bytes vs arithmetic oracle",
@@ -312,7 +318,16 @@ def main() -> None:
                 "name": "lemma",
                 "path": "vp/lemma.py",
                 "serves_properties": ["C01", "C05"],
-                "kind_free_text": "QF_BV obligations (sumset stabilisation in Z_d) discharged by z3, cross-checked with cvc5",
+                "kind_free_text": "QF_BV obligations (sumset stabilisation in Z_d) discharged by z3, cross-checked with cvc5; z3 "
+                "regular-language equivalence of the reserved-name patterns (C05)",
+            },
+            {
+                "name": "pz",
+                "path": "vp/pz.py",
+                "serves_properties": ["C06", "C07"],
+                "kind_free_text": "AST -> SMT translation of _BitWriter/_BitReader (source fetched with inspect at run time) with "
+                "concrete control state, symbolic data and if-conversion; obligations W/A/R/S discharged by z3 QF_BV after "
+                "validating the translator on concrete inputs against the real classes",
             },
         ],
         "checks": checks,
